@@ -97,6 +97,13 @@ func run(r *hx.Run) error {
 	for i := 0; i < ncq; i++ {
 		h.genCq(i)
 	}
+	nsu := 12
+	if r.Thorough {
+		nsu = 100
+	}
+	for i := 0; i < nsu; i++ {
+		h.genSuspend(i)
+	}
 	return nil
 }
 
@@ -373,6 +380,22 @@ func (h *H) runOps(ops []string) {
 			if q, ok := parseCqOp(f); ok {
 				cops = append(cops, q)
 			}
+		case "suspend":
+			var m, q, a, b int
+			for _, x := range f[1:] {
+				switch {
+				case strings.HasPrefix(x, "mask="):
+					m, _ = strconv.Atoi(x[5:])
+				case strings.HasPrefix(x, "q="):
+					q, _ = strconv.Atoi(x[2:])
+				case strings.HasPrefix(x, "n1="):
+					a, _ = strconv.Atoi(x[3:])
+				case strings.HasPrefix(x, "n2="):
+					b, _ = strconv.Atoi(x[3:])
+				}
+			}
+			h.suspendCase(id, uint32(m), q, a, b)
+			return
 		}
 	}
 	if len(qops) > 0 {
